@@ -95,7 +95,8 @@ def module_toks(m):
             if p.get('decl_type'):
                 raise Inexpressible('ANSI header port with a net type')
             w = p['width']
-            out += ['HP', '~' if p.get('inherit_dir') else DIRS[p['dir']]] + range_toks(None if w is None else w - 1, None if w is None else 0) + [name_tok(p['name'])]
+            out += ['HP', '~' if p.get('inherit_dir') else DIRS[p['dir']]] + \
+                   (range_toks(None, None) if p.get('inherit_rng') else range_toks(None if w is None else w - 1, None if w is None else 0)) + [name_tok(p['name'])]
         else:
             out += ['HP', '~', '~', name_tok(p['name'])]
     items = []
